@@ -18,6 +18,7 @@ RULE = ("Pairs (A, B) differing by 1-5 changes of mixed kinds, with (1/3) and wi
 ASSUMPTIONS = ["an interface counts as named in the leaf report when its name occurs there as a whole word"]
 
 
+SPURIOUS = "default-mode-lists-interface-whose-changes-are-all-filtered"
 MASKED = "uncategorized-change-masked-by-harmless-category-in-default-mode"
 FNSUP = "function-or-variable-suppression-not-honoured-by-leaf-mode"
 
@@ -82,6 +83,24 @@ def run_case(case, cx):
         if (leaf.rc & ~dflt.rc) and not (dflt.rc & ~leaf.rc) and pairs.only_harmless_categories_in_tree(cx, b1, b2, opts):
             cx.violation(MASKED, det)
             return
+        # Third recorded defect, the mirror image: the default reporter lists an interface "with some indirect sub-type
+        # changes" although every change beneath it is filtered (harmless or suppressed), and prints an empty explanation;
+        # the leaf reporter shows nothing.  Recognised from the diff tree: no unsuppressed harmful category under any of
+        # the interfaces the default report lists.
+        if (dflt.rc & ~leaf.rc) and not (leaf.rc & ~dflt.rc):
+            try:
+                rep0 = R.parse(dflt.text())
+                listed = []
+                names0 = sorted(set(i["name"] for mm in (m, m2) for k, i in M.interfaces(mm)), key=len, reverse=True)
+                for pretty, linkage in rep0.names("fn_changed") + rep0.names("var_changed"):
+                    listed.append(next((n for n in names0 if re.search(r"(?<![A-Za-z0-9_])" + re.escape(n) + r"(?![A-Za-z0-9_])", pretty)), None))
+                only_changed = not any(rep0.names(k) for k in rep0.sections if k not in ("fn_changed", "var_changed"))
+                if listed and all(listed) and only_changed and not rep0.soname_changed and \
+                        all(pairs.subtree_has_nothing_reportable(cx, b1, b2, opts, n) for n in listed):
+                    cx.violation(SPURIOUS, det)
+                    return
+            except R.ParseError:
+                pass
         cx.violation("exit-status-differs:default=%d,leaf=%d" % (dflt.rc, leaf.rc), det)
         return
     rep = pairs.parse_or_oracle_error(cx, dflt)
@@ -92,5 +111,8 @@ def run_case(case, cx):
         if hit is None:
             continue
         if not re.search(r"(?<![A-Za-z0-9_])" + re.escape(hit) + r"(?![A-Za-z0-9_])", ltxt):
+            if pairs.subtree_has_nothing_reportable(cx, b1, b2, opts, hit):
+                cx.violation(SPURIOUS, dict(det, interface=hit))
+                return
             cx.violation("changed-interface-missing-from-leaf-report", dict(det, interface=hit))
             return
